@@ -55,6 +55,7 @@ type Observed struct {
 	Reads     [][]Read `json:"reads"`  // per consumer
 	Events    []Ev     `json:"events"` // reconstructed schedule
 	Ambiguous string   `json:"ambiguous,omitempty"` // the schedule could not be reconstructed unambiguously: case discarded
+	Raced     string   `json:"raced,omitempty"`     // a hand-off arrived while a consumer was acting: the oracle still applies, the case is not given to the model
 	Err       string   `json:"err,omitempty"`       // the stream did not complete
 	Posted    int      `json:"posted"`
 	TapLens   []int    `json:"tap_lens,omitempty"` // lengths of the hand-offs (kept when the bytes are dropped from a report)
